@@ -150,8 +150,11 @@ vbi_event_enable(vbi_decoder *vbi, int mask)
 		vbi_teletext_channel_switched(vbi);
 	if (activate & VBI_EVENT_CAPTION)
 		vbi_caption_channel_switched(vbi);
-	if (activate & (VBI_EVENT_NETWORK | VBI_EVENT_NETWORK_ID))
+	if (activate & (VBI_EVENT_NETWORK | VBI_EVENT_NETWORK_ID)) {
 		memset(&vbi->network, 0, sizeof(vbi->network));
+		CLEAR (vbi->cni_cycle);
+		CLEAR (vbi->cni_announced);
+	}
 	if (activate & VBI_EVENT_TRIGGER)
 		vbi_trigger_flush(vbi);
 	if (activate & (VBI_EVENT_ASPECT | VBI_EVENT_PROG_INFO)) {
@@ -512,6 +515,8 @@ vbi_chsw_reset(vbi_decoder *vbi, vbi_nuid identified)
 
 	if (identified == 0) {
 		memset(&vbi->network, 0, sizeof(vbi->network));
+		CLEAR (vbi->cni_cycle);
+		CLEAR (vbi->cni_announced);
 
 		if (old_nuid != 0) {
 			vbi->network.type = VBI_EVENT_NETWORK;
